@@ -133,9 +133,9 @@ func lookupsStr(set *am.ValueSet) string {
 		if v.Name != "" && !seenN[v.Name] {
 			seenN[v.Name] = true
 			if p := set.Named(v.Name); p != nil {
-				out = append(out, fmt.Sprintf("named:%s@%s", v.Name, labelStr(*p)))
+				out = append(out, fmt.Sprintf("named:%s@%s", e2s(v.Name), labelStr(*p)))
 			} else {
-				out = append(out, fmt.Sprintf("named:%s@-", v.Name))
+				out = append(out, fmt.Sprintf("named:%s@-", e2s(v.Name)))
 			}
 		}
 		if !seenT[v.Type] {
@@ -255,15 +255,19 @@ func genSig(w *bufio.Writer, r *rng, id, size int) {
 		if ps {
 			sig = "panic"
 		}
-		fmt.Fprintf(w, "isig %s\n", e2s(sig))
+		fmt.Fprintf(w, "isig %s\n", tildeOnly(sig))
 	}
 	fmt.Fprintf(w, "end\n")
 }
 
 // ---------------------------------------------------------------- C15: vset
 
-var vsetNames = []string{"a", "B", "val", "Port", "xY", "n1"}
-var vsetSubs = []string{"", "", "s", "t", "k=v", "YQ=="}
+var vsetNames = []string{"a", "B", "val", "Port", "xY", "n1", "é"}
+
+// names / subtypes that cannot be represented in a struct field / struct tag
+var vsetNamesBad = []string{"x-y", "1x", "a b", "_u", "a,b"}
+var vsetSubsBad = []string{"a,b", "x,typeOnly", "q\"r", "b\\s", "l1\nl2", ","}
+var vsetSubs = []string{"", "", "s", "t", "k=v", "YQ==", "two words", "é"}
 
 func genVset(w *bufio.Writer, r *rng, id, size int) {
 	n := r.intn(size + 1)
@@ -274,8 +278,14 @@ func genVset(w *bufio.Writer, r *rng, id, size int) {
 	for i := 0; i < n; i++ {
 		ty := []int{0, 1, 2, 3, 4, tyI0, tyE0}[r.intn(7)]
 		v := am.Value{Type: tyOf(ty), Subtype: vsetSubs[r.intn(len(vsetSubs))]}
+		if r.chance(1, 15) {
+			v.Subtype = vsetSubsBad[r.intn(len(vsetSubsBad))]
+		}
 		if r.chance(1, 2) {
 			v.Name = vsetNames[r.intn(len(vsetNames))]
+			if r.chance(1, 15) {
+				v.Name = vsetNamesBad[r.intn(len(vsetNamesBad))]
+			}
 			if usedN[strings.ToLower(v.Name)] {
 				continue // duplicate names are outside the property's premise (StructOf rejects them)
 			}
